@@ -68,11 +68,13 @@ Definition site_ok (s : site) : bool :=
   forallb (fun a => mem a (allowed s)) (st_observed s)
   && (if expected_inline s then mem (st_callee_access s) (st_observed s) else true).
 
-(* finding class KF_C08_1: the base of the callee is a parameter that is spelled like a module-level name *)
+(* finding class KF_C08_1 (what is left of it after fix 1134bd3): the callee is C.s for a static method s of a
+   module-level class C while C is a parameter - static methods are registered under the dotted name "C.s", which
+   the parameter C does not shadow *)
 Definition shadowed_by_parameter (s : site) : bool :=
   match split_dot (st_callee s) with
-  | n :: _ => mem n (st_params s) && match rlookup (st_root s) n with Some _ => true | None => false end
-  | [] => false
+  | [c; _] => mem c (st_params s) && match rlookup (st_root s) (st_callee s) with Some RStatic => true | _ => false end
+  | _ => false
   end.
 
 (* finding class KF_C08_2: the callee is the result of a call to a module-level callable - f(x)(y) *)
